@@ -374,10 +374,10 @@ def explore(ctx):
         if ctx.quick():
             cap, nr, mp = (4, 3, 3) if kind == 'peep' else (5, 4, 6) if spawns else (34, 25, max_paths)
         else:
-            cap, nr, mp = (40, 30, 8) if kind == 'peep' else (60, 40, 24) if spawns else (len(ex), len(rn), max_paths)
+            cap, nr, mp = (40, 30, 8) if kind == 'peep' else (60, 40, 24) if spawns else (250, 150, 60)
         tl += rnd.sample(ex, min(cap, len(ex)))
         tl += rn[:nr]
-        nk = (5 if kind == 'peep' else 8 if spawns else 120) if ctx.quick() else (60 if kind == 'peep' else 100 if spawns else 1500)
+        nk = (5 if kind == 'peep' else 8 if spawns else 120) if ctx.quick() else (40 if kind == 'peep' else 60 if spawns else 600)
         tl += [gen_kind_text(rnd, kind, 5 if kind == 'peep' else 10) for _ in range(nk)]
         if spawns and ctx.quick():
             tl = tl[::3]
